@@ -1426,7 +1426,7 @@ impl fmt::Display for InstrAt
 			Instruction::Ldrsh{dst, addr, off} => write!(f, "LDRSH {dst}, [{addr} + {off}];"),
 			Instruction::Lsl{dst, value, shift} => write!(f, "LSLS {dst}, {value}, {shift};"),
 			Instruction::Lsr{dst, value, shift} => write!(f, "LSRS {dst}, {value}, {shift};"),
-			Instruction::Mov{flags, dst, src} => write!(f, "MOV{} {dst}, {src}", if flags {"S"} else {""}),
+			Instruction::Mov{flags, dst, src} => write!(f, "MOV{} {dst}, {src};", if flags {"S"} else {""}),
 			Instruction::Mrs{dst, src} => write!(f, "MRS {dst}, {src};"),
 			Instruction::Msr{dst, src} => write!(f, "MSR {dst}, {src};"),
 			Instruction::Mul{dst, rhs} => write!(f, "MULS {dst}, {rhs};"),
@@ -1441,7 +1441,7 @@ impl fmt::Display for InstrAt
 			Instruction::Ror{dst, rhs} => write!(f, "RORS {dst}, {rhs};"),
 			Instruction::Rsb{dst, lhs} => write!(f, "RSBS {dst}, {lhs}, 0;"),
 			Instruction::Sbc{dst, rhs} => write!(f, "SBCS {dst}, {rhs};"),
-			Instruction::Sev => f.write_str("SEV"),
+			Instruction::Sev => f.write_str("SEV;"),
 			Instruction::Stm{addr, registers} => write!(f, "STM {addr}, {registers};"),
 			Instruction::Str{src, addr, off} => write!(f, "STR {src}, [{addr} + {off}];"),
 			Instruction::Strb{src, addr, off} => write!(f, "STRB {src}, [{addr} + {off}];"),
